@@ -300,6 +300,12 @@ def main():
              'kind_free_text': 'TLA+ document model (semantic normal form tables), Project per version, acceptance rules + TLC judge'},
             {'name': 'functional', 'path': 'spec/Trace_Functional.tla', 'serves_properties': ['C16'],
              'kind_free_text': 'TLA+ trace specification with memo history variable, validated line by line by TLC'},
+            {'name': 'config', 'path': 'spec/WnConfig.tla', 'serves_properties': [],
+             'kind_free_text': 'beyond the listed properties (bin/check X01): the project index of wn.config as a '
+                               'TLA+ state machine, TLC-simulated behaviours replayed on WNConfig, every call judged'},
+            {'name': 'download', 'path': 'spec/WnDownload.tla', 'serves_properties': [],
+             'kind_free_text': 'beyond the listed properties (bin/check X02): wn.download() over cache, mirrors and '
+                               'a scripted HTTP transport, TLC-simulated behaviours replayed, every step judged'},
         ],
         'checks': checks,
         'not_applicable': [{'property_id': p['id'], 'reason': REASON_TODO}
